@@ -124,8 +124,9 @@ def store_strategy():
   ns = st.lists(comp, max_size=3)
   nsidx = st.integers(0, 3)
   key = st.sampled_from(KEYS)
-  tref = st.one_of(st.integers(0, 5), st.integers(0, 5), st.just('missing'),
-                   st.just('missing'),
+  tref = st.one_of(st.integers(0, 5), st.integers(0, 5), st.integers(0, 5),
+                   st.integers(0, 5), st.integers(0, 5), st.integers(0, 5),
+                   st.just('missing'), st.just('missing'), st.just('missing'),
                    # not the id of any trial: rejected, nothing changes
                    st.sampled_from(['bad:0', 'bad:-3', 'bad:abc']))
   item = st.one_of(
@@ -269,6 +270,15 @@ def check_store(case):
         return bool(resp.error_details)
       delta = vz.MetadataDelta()
       for scope, nsx, key, v in items:
+        if len(nss[nsx]) == 1 and (len(key) + nsx) % 2 == 0:
+          # the one-namespace convenience API of MetadataDelta
+          out.cls('delta_assign_api')
+          if scope == 'study':
+            delta.assign(nss[nsx][0], key, _mk_value(v)[0])
+          else:
+            tid_ = int(scope) if str(scope).lstrip('-').isdigit() else scope
+            delta.assign(nss[nsx][0], key, _mk_value(v)[0], trial_id=tid_)
+          continue
         tgt = delta.on_study if scope == 'study' else delta.on_trials[scope]
         tgt.abs_ns(nss[nsx])[key] = _mk_value(v)[0]
       try:
